@@ -200,7 +200,7 @@ def gauss (k : Nat) (A : Fin k → Fin k → Float) (b : Fin k → Float) : Opti
     `1e-12 · λmax`: a system with a bound ≤ 1e6 keeps them all, so the exact solve and the real
     pseudo-inverse must agree; pivot sizes alone do not tell (a pivot order through an off-diagonal entry
     hides a 1e-48 eigenvalue behind two pivots of 1e-24). -/
-def condInf (k : Nat) (A : Fin k → Fin k → Float) : Float := Id.run do
+def condParts (k : Nat) (A : Fin k → Fin k → Float) : Float × Float := Id.run do
   let rowSum := fun (f : Fin k → Fin k → Float) =>
     (List.finRange k).foldl (fun a i =>
       let r := (List.finRange k).foldl (fun r j => r + (f i j).abs) 0.0
@@ -209,9 +209,13 @@ def condInf (k : Nat) (A : Fin k → Fin k → Float) : Float := Id.run do
   for j in List.finRange k do
     match gaussCore false k A (fun i => if i = j then 1.0 else 0.0) with
     | some x => cols := cols.push x
-    | none => return 1.0 / 0.0
+    | none => return (rowSum A, 1.0 / 0.0)
   let inv : Fin k → Fin k → Float := fun i j => (cols.getD j.val #[]).getD i.val 0
-  return rowSum A * rowSum inv
+  return (rowSum A, rowSum inv)
+
+def condInf (k : Nat) (A : Fin k → Fin k → Float) : Float :=
+  let (a, b) := condParts k A
+  a * b
 
 /-- an (almost) exact inner solver for the model: Gaussian elimination; rank 0 = "not judged" -/
 def gaussSolver : Solver Float := fun m A b t =>
@@ -321,8 +325,14 @@ def checkCase (c : Case) : List String := Id.run do
         && real.value.isFinite && (List.finRange n).all (fun i => (real.position i).isFinite) then
       let mc := q.solveConstrained gaussSolver shrunkReal nb tpos tval
       judged := judged + 1
+      -- rounding noise of the right-hand side: `AtB_c` is `AtB` minus `AtA`·(fixed coordinates), computed in
+      -- double by both sides in different orders; with sample normals of magnitude 1e20 .. 1e49 the cancellation
+      -- leaves an absolute error of eps·(|AtB| + |AtA|·|box|), which the inverse maps into the solution
+      let mAbs := (List.finRange (n + 1)).foldl (fun a i => (List.finRange (n + 1)).foldl (fun a j =>
+        let x := (q.AtA i j).abs * scale0 + (q.AtBp i j).abs; if x > a then x else a) a) 0.0
+      let noise := (condParts kk (q.reducedAtA nb)).2 * mAbs * 1e-8
       let cmp := fun (what : String) (a b : Float) =>
-        let sc := scale0 + a.abs + b.abs + 1e-300
+        let sc := scale0 + a.abs + b.abs + noise + 1e-300
         let d := (a - b).abs / sc
         (d, if d ≤ 1e-6 then none else some s!"{what} nb={nb} model={a} real={b}")
       for i in List.finRange n do
